@@ -106,7 +106,7 @@ impl Prop for C02 {
     }
 
     fn health(&self, tier: Tier) -> Vec<(&'static str, u64)> {
-        vec![("multi-block-index-level", tier.pick(20, 500)), ("complete-alphabet", tier.pick(300, 8000))]
+        vec![("multi-block-index-level", tier.pick(20, 500)), ("complete-alphabet", tier.pick(300, 4000))]
     }
 
     fn fuzz_targets(&self) -> Vec<(&'static str, u64)> {
